@@ -788,3 +788,23 @@ def reached_only_through(ctx, rid, f, is_event, allowed_edge, what, construct):
         ctx.violation(rid, f.name, construct + ':no-site', f.loc, '%s — no such site in %s' % (what, f.name))
         return False
     return ok_all
+
+
+def absent_from(field):
+    """Skip-condition entries [(pred, polarity)] meaning "the key is not in container `field`":
+    `find(k) == end()` true, `count(k) == 0` true, `count(k)` false, `contains(k)` false."""
+    def eq_end(a):
+        a = strip(a)
+        return isinstance(a, dict) and a.get('k') == 'call' and basename(a.get('name') or '').startswith('operator==') and \
+            ('%s.end()' % field) in dstr(a)
+
+    def count_zero(a):
+        a = strip(a)
+        return isinstance(a, dict) and a.get('k') == 'bin' and a['op'] == '==' and const_value(a['r']) == 0 and \
+            any(x.get('k') == 'call' and lastname(x.get('name')) in ('count',) and mentions_field(x.get('recv'), field) for x in walk(a['l']))
+
+    def count_truth(a):
+        a = strip(a)
+        return isinstance(a, dict) and a.get('k') == 'call' and lastname(a.get('name')) in ('count', 'contains') and \
+            mentions_field(a.get('recv'), field)
+    return [(eq_end, True), (count_zero, True), (count_truth, False)]
